@@ -104,6 +104,7 @@ def run_shard(spec, rec):
     ureg = pintload.registry(**kw)
     one = nit(1)
     Q = ureg.Quantity
+    _lazy = {}
     _viol = rec.violation
     rec.violation = lambda mech, wit, **f: _viol(mech, wit, cfg=spec.get("cfg") or spec.get("nit") or "float", **f)
 
@@ -285,6 +286,30 @@ def run_shard(spec, rec):
             dyadic = all(F(v).denominator in (1, 2, 4) for v in list(da.values()) + list(db.values()))
             if rng.random() < 0.2 and dyadic:
                 dim_predicates(A, tuple(sorted(da.items())), tuple(sorted(db.items())), kind)
+            if spec.get("cfg") == "autoreduce" and rng.random() < 0.5:
+                # closure under products / quotients / powers as QUANTITY arithmetic, where this
+                # configuration rewrites the units after every operation
+                try:
+                    # exact registry: in float registries auto-reduction is known to stumble over
+                    # rounded exponent ratios (finding T3 of C15); that is not what is asked here
+                    if "ar" not in _lazy:
+                        _lazy["ar"] = pintload.registry(non_int_type=F, auto_reduce_dimensions=True)
+                    ar = _lazy["ar"]
+                    mkc = lambda d: ar.UnitsContainer({k: int(e) if F(e).denominator == 1 else F(e) for k, e in d.items()})  # noqa: E731
+                    qa, qb = ar.Quantity(F(1), mkc(a)), ar.Quantity(F(1), mkc(b))
+                    for opn, r, wd in (("mul", lambda: qa * qb, R.mmul(da, db)), ("div", lambda: qa / qb, R.mmul(da, db, -1)),
+                                       ("pow", lambda: qa ** 2, R.mscale(da, 2))):
+                        rec.count("autoreduce_closure_checks")
+                        oc3, val3 = outcome(r, pint)
+                        if oc3 == "range":
+                            continue
+                        gotd = {k: F(v) for k, v in dict(val3.dimensionality).items()} if oc3 == "ok" else oc3
+                        if gotd != wd:
+                            rec.violation("closure-under-quantity-arithmetic", {"a": gen.render_units(a), "b": gen.render_units(b),
+                                                                                "op": opn, "got": str(gotd), "want": str(wd)},
+                                          workload=kind, op=opn)
+                except Exception as e:  # noqa: BLE001
+                    rec.count("autoreduce_closure_skipped")
             made.append((a, b, same))
             # adjacent-exponent twins asked right after a successful conversion: the same unit names with
             # one exponent moved by one (-1 -> -2 in particular: hash(-1) == hash(-2) in CPython) must be
